@@ -284,8 +284,11 @@ theorem admissible_completes {cs : List Chunk} {parts : List SPart} (sf : Sender
         simpa using this
       have htot : s'.totalReceived = totalBytes cs := by rw [hb'.total, hcr, take_length_self]
       unfold handleCompletion
-      simp only [hl, hcr, htot, hbuf, ne_eq, not_true_eq_false, decide_false, Bool.or_self, List.isEmpty_nil,
-        Bool.not_true, Bool.and_false, Bool.false_eq_true, if_false]
+      have hcond : (!cfg.legacy && (!s'.buffer.isEmpty ||
+          ((cs.length != 0 || totalBytes cs != 0) &&
+            (cs.length != s'.chunksReceived || totalBytes cs != s'.totalReceived)))) = false := by
+        simp [hcr, htot, hbuf]
+      simp only [hcond, Bool.false_eq_true, if_false]
       exact (finalize_core _ _ _).2.2.1 ▸ rfl
 
 /-- In-order delivery is admissible in every configuration. -/
